@@ -182,4 +182,5 @@ func init() {
 		"import (\n\t\"sync\"\n${1}\t\tvar potentialSequences []string\n\t\tvar rotations sync.WaitGroup\n\t\tfor _, strand := range []string{sequence, transform.ReverseComplement(sequence)} {\n\t\t\trotations.Add(1)\n\t\t\tgo func(strand string) {\n\t\t\t\tdefer rotations.Done()\n\t\t\t\tpotentialSequences = append(potentialSequences, RotateSequence(strand))\n\t\t\t}(strand)\n\t\t}\n\t\trotations.Wait()\n", "STATE/go-shared-write")
 	fire("C15", "parsed-file-remembered-by-path", pj, `(?s)"encoding/json"\n(.*?)func Read\(path string\) poly\.Sequence \{\n\tfile, _ := ioutil\.ReadFile\(path\)\n\tsequence := Parse\(file\)\n`,
 		"\"encoding/json\"\n\t\"sync\"\n${1}var parsedFiles sync.Map\n\nfunc Read(path string) poly.Sequence {\n\tif cached, ok := parsedFiles.Load(path); ok {\n\t\treturn cached.(poly.Sequence)\n\t}\n\tfile, _ := ioutil.ReadFile(path)\n\tsequence := Parse(file)\n\tparsedFiles.Store(path, sequence)\n", "STATE/memo-key")
+	fire("C20", "decoding-error-sent-without-waiting", "io/uniprot/uniprot.go", `\t\t\t\terrors <- err\n\t\t\t\}\n\t\t\tentries <- e\n`, "\t\t\t\tselect {\n\t\t\t\tcase errors <- err:\n\t\t\t\tdefault:\n\t\t\t\t}\n\t\t\t}\n\t\t\tentries <- e\n", "STATE/non-blocking-send")
 }
